@@ -1,10 +1,10 @@
 PLAN = {
     "level": "translation_validation",
-    "quick": [replays("C06"), tape("C06", 1600, size=300, case_timeout=300)],
-    "thorough": [replays("C06"), tape("C06", 24000, size=400, case_timeout=300)],
+    "quick": [replays("C06"), tape("C06", 800, size=300, case_timeout=300)],
+    "thorough": [replays("C06"), tape("C06", 12000, size=400, case_timeout=300)],
     "class_floors": {
         "chain-depth:2": 0.1, "chain-depth:3": 0.02, "diamond": 0.02, "duplicate-import": 0.08, "component-name-clash": 0.01, "plan:units-name-clash": 0.02,
-        "imported-component-with-encapsulated-children": 0.1, "imported-units": 0.15, "library-units-needed-by-cn-only": 0.01, "imported-units-used-by-cn-only": 0.005,
+        "imported-component-with-encapsulated-children": 0.1, "imported-units": 0.15, "library-units-needed-by-cn-only": 0.01,
         "scaled-units-across-the-boundary": 0.03, "resolved-through-addModel": 0.2, "resolved-from-files": 0.2, "resolved-from-files+main-parsed": 0.15,
         "type:ode": 0.15, "type:dae": 0.03, "type:nla": 0.03, "type:algebraic": 0.1,
     },
